@@ -207,7 +207,7 @@ Fixpoint drain (fuel : nat) (st : sc) (segs : list bytes) (fin : N) (serr : opti
 Definition flat (out : list bytes) : bytes := concat (rev out).
 
 Definition drain_fuel (segs : list bytes) : nat :=
-  S (S (S (length (concat segs) + 2 * length segs))).
+  S (S (S (2 * length (concat segs)))).
 
 Definition reader (segs : list bytes) (fin : N) : bytes * res unit :=
   let '(out, r) := drain (drain_fuel segs) sc0 segs fin None [] in (flat out, r).
